@@ -734,7 +734,15 @@ func (e *fnEnc) appendBuiltin(st *state, at ssa.Value, c *ssa.CallCommon) {
 	h := e.heap(st, key, es)
 	// frame: an in-place append writes the spare capacity of s
 	if e.fc != nil && e.fc.ModSet && !e.fc.ModAll {
-		e.frameCheck2(st, implies(and(inplace, not(eq(tlen, bvLit(64, 0)))), fmt.Sprintf("(>= (rootn (s_base %s)) %s)", s, e.entry.next)), c.Pos(), "append")
+		allowed := []string{fmt.Sprintf("(>= (rootn (s_base %s)) %s)", s, e.entry.next)}
+		if !e.fc.ModNone {
+			written := fmt.Sprintf("(mkslice %s %s %s %s)", app("s_base", s), app("bvadd", app("s_off", s), app("s_len", s)), tlen, tlen)
+			menv := e.contractEnv(e.entry, e.entry, nil)
+			for _, m := range e.fc.Modifies {
+				allowed = append(allowed, menv.regionInModifies(m, written))
+			}
+		}
+		e.frameCheck2(st, implies(and(inplace, not(eq(tlen, bvLit(64, 0)))), or(allowed...)), c.Pos(), "append")
 	}
 	// copied prefix of a reallocated result (fact about a fresh object)
 	e.hasQuant = true
